@@ -63,7 +63,8 @@ Section Facts.
     (* F1: outside its synchronous segments the parent holds no write end *)
     Definition f_quiescent (s : lst) : bool := p_running s || negb (e_tx (p_ends (ps s))).
     (* F2: an unfinished invocation can always move *)
-    Definition f_progress (s : lst) : bool := p_done s || parent_enabled s || c_running s.
+    Definition child_enabled (s : lst) : bool := step_enabled (lstep P C b 0 LChild s).
+    Definition f_progress (s : lst) : bool := p_done s || parent_enabled s || child_enabled s.
     (* F3: a finished invocation meets the specification (outside the envelope region: there
        it still exits cleanly) *)
     Definition f_done (s : lst) : bool :=
@@ -80,8 +81,9 @@ Section Facts.
       end.
     (* F4: the loop thread is never held blocked while the callee is still computing *)
     Definition f_nonblocking (s : lst) : bool := negb (sync_blocked s) || negb (callee_pending s).
-    (* F5: a running child can always step (nothing in the child blocks) *)
-    Definition f_child_free (s : lst) : bool := negb (c_running s) || step_enabled (lstep P C b 0 LChild s).
+    (* F5: a running child can always step, unless it is blocked in the write of a large message
+       (the pipe buffer is full and the parent is not inside recv(); F2 says the parent can move then) *)
+    Definition f_child_free (s : lst) : bool := negb (c_running s) || child_enabled s || c_sending (cs s).
 
     Definition f_all (s : lst) : bool :=
       f_quiescent s && f_progress s && f_done s && f_exact s && f_nonblocking s && f_child_free s.
@@ -114,7 +116,7 @@ Section Facts.
   Proof. intros b b' (_ & _ & _ & _ & _ & Hu & _). exact Hu. Qed.
   Lemma f_all_ext : forall b b' s, beh_agree C b b' -> f_all b s = f_all b' s.
   Proof.
-    intros b b' s Hag. unfold f_all, f_progress, f_done, f_exact, f_nonblocking, f_child_free, sync_blocked,
+    intros b b' s Hag. unfold f_all, f_progress, f_done, f_exact, f_nonblocking, f_child_free, sync_blocked, child_enabled,
       parent_enabled, spec_ok, outcome_ok, model_final.
     rewrite (demanded_ext _ _ Hag), (reports_ext _ _ Hag), (envelope_ext _ _ Hag), (unp_ext _ _ Hag),
       !(lstep_ext P C b b' 0 _ s Hag).
@@ -160,15 +162,17 @@ Section Facts.
   Qed.
 
   Lemma progress : forall b s, lreach P C b s -> p_done s = false ->
-    parent_enabled b s = true \/ c_running s = true.
+    parent_enabled b s = true \/ child_enabled b s = true.
   Proof.
     intros b s Hr Hd. facts b s Hr. unfold f_progress in H4. rewrite Hd in H4. cbn in H4.
     now apply orb_true_iff in H4.
   Qed.
 
-  Lemma child_free : forall b s, lreach P C b s -> c_running s = true -> step_enabled (lstep P C b 0 LChild s) = true.
+  Lemma child_free : forall b s, lreach P C b s -> c_running s = true -> c_sending (cs s) = false ->
+    child_enabled b s = true.
   Proof.
-    intros b s Hr Hc. facts b s Hr. unfold f_child_free in H0. rewrite Hc in H0. exact H0.
+    intros b s Hr Hc Hs. facts b s Hr. unfold f_child_free in H0. rewrite Hc, Hs in H0. cbn in H0.
+    now rewrite orb_false_r in H0.
   Qed.
 
   Lemma done_spec : forall b s, lreach P C b s -> p_done s = true -> returns_envelope b = false ->
@@ -214,7 +218,7 @@ Section Facts.
     apply negb_false_iff. unfold l_enabled. apply existsb_exists.
     destruct (progress b s Hr Hd) as [Hp | Hc].
     - exists LParent. split; [cbn; auto | exact Hp].
-    - exists LChild. split; [cbn; auto | exact (child_free b s Hr Hc)].
+    - exists LChild. split; [cbn; auto | exact Hc].
   Qed.
 
   (* from every reachable state the invocation can be driven to its end, in at most
@@ -227,14 +231,14 @@ Section Facts.
       exfalso. destruct (progress b s Hr Hd) as [Hp | Hc].
       + unfold parent_enabled, step_enabled in Hp. destruct (lstep P C b 0 LParent s) eqn:E; [|discriminate].
         pose proof (measure_decreases b s LParent l Hr E). lia.
-      + pose proof (child_free b s Hr Hc) as Hf. unfold step_enabled in Hf.
+      + pose proof Hc as Hf. unfold child_enabled, step_enabled in Hf.
         destruct (lstep P C b 0 LChild s) eqn:E; [|discriminate].
         pose proof (measure_decreases b s LChild l Hr E). lia.
     - destruct (p_done s) eqn:Hd; [exists []; split; [cbn; lia | exact Hd]|].
       assert (Hex : exists c s', lstep P C b 0 c s = Some s').
       { destruct (progress b s Hr Hd) as [Hp | Hc].
         - unfold parent_enabled, step_enabled in Hp. destruct (lstep P C b 0 LParent s) eqn:E; [|discriminate]. eauto.
-        - pose proof (child_free b s Hr Hc) as Hf. unfold step_enabled in Hf.
+        - pose proof Hc as Hf. unfold child_enabled, step_enabled in Hf.
           destruct (lstep P C b 0 LChild s) eqn:E; [|discriminate]. eauto. }
       destruct Hex as [c [s' Hs]].
       pose proof (measure_decreases b s c s' Hr Hs) as Hlt.
